@@ -22,7 +22,8 @@ def get_const(protocol_version):
         (
             CONST_VERSIONS[const_version]
             for const_version in sorted(CONST_VERSIONS, reverse=True)
-            if AwesomeVersion(protocol_version) >= AwesomeVersion(const_version)
+            # "2.0.0" and "2.0" compare neither less, equal nor greater.
+            if not AwesomeVersion(protocol_version) < AwesomeVersion(const_version)
         ),
         "mysensors.const_14",
     )
